@@ -1,4 +1,5 @@
 import Proofs.RdataTextField
+import Proofs.NameOrder3
 /-! Name fields: `Name.to_styled_text` output is one identifier for the tokenizer and `as_name` reads it back (C05). -/
 namespace Model
 
@@ -219,30 +220,160 @@ theorem C01_fromText_toText_origin (n o : Name) (h : WfName n) (ho : OctetsOk n)
     simp [h0, this, hab]
 
 
-/-- the configurations in which a name field comes back unchanged (others are equal only modulo the origin):
-the style does not rewrite names, and either no origin is used for parsing or the name is absolute and is not
-relativized. -/
-def NameCfgOk (st : Style) (env : PEnv) (n : Name) : Prop :=
-  st.origin = none ∧ env.relTo = none ∧ (env.origin = none ∨ (env.relativize = false ∧ isAbs n = true))
+/-! ## the name field under every origin / relativize choice -/
 
-theorem field_name (st : Style) (env : PEnv) (n : Name) (hw : WfName n) (ho : OctetsOk n) (hcfg : NameCfgOk st env n) :
-    FieldRT st env .name (.nm n) (toText n) ⟨.ident, toText n⟩ := by
-  obtain ⟨hso, hrt, hcase⟩ := hcfg
-  obtain ⟨hlex, hnh⟩ := toText_lexes n hw ho
-  refine ⟨by simp [printField, nameToStyled, chooseRelativity, hso], hlex, ?_, hnh⟩
-  rcases hcase with hno | ⟨hrel, habs⟩
-  · have := C01_fromText_toText n hw ho
-    simp [parseField, asName, hno, hrt, this, orOrigin, chooseRelativity]
-  · cases ho' : env.origin with
-    | none =>
-      have := C01_fromText_toText n hw ho
-      simp [parseField, asName, ho', hrt, this, orOrigin, chooseRelativity]
-    | some o =>
-      have := C01_fromText_toText_origin n o hw ho
-      simp only [habs, if_true] at this
-      simp only [parseField, asName, ho', hrt, this, orOrigin, chooseRelativity, hrel]
-      by_cases hoe : o = []
-      · simp [hoe]
-      · simp [hoe, derelativize, habs]
+open NameOrder in
+theorem derel_rel' (n o r : Name) (hn : WfName n) (hrel : isAbs n = false) (ho : isAbs o = true)
+    (h : derelativize n o = .ok r) : r = n ++ o ∧ relativize r o = .ok n := derel_rel n o r hn hrel ho h
+
+open NameOrder in
+theorem isAbs_append' (a b : Name) (hb : b ≠ []) : isAbs (a ++ b) = isAbs b := isAbs_append a b hb
+
+open NameOrder in
+theorem ne_nil_of_isAbs' {a : Name} (h : isAbs a = true) : a ≠ [] := ne_nil_of_isAbs h
+
+
+/-- what `Tokenizer.as_name` returns on the text of the (legal) name `m`, computed on names only:
+`from_text` appends the origin to a relative name, then `choose_relativity(relativize_to or origin, relativize)` -/
+def nameBack (env : PEnv) (m : Name) : Option Name :=
+  let p : Except NameErr Name :=
+    match env.origin with
+    | none => .ok m
+    | some o => if isAbs m then .ok m else validate (m ++ o)
+  match p with
+  | .error _ => none
+  | .ok q =>
+    match chooseRelativity q (orOrigin env.relTo env.origin) env.relativize with
+    | .ok r => some r
+    | .error _ => none
+
+theorem asName_toText (env : PEnv) (m : Name) (hw : WfName m) (ho : OctetsOk m) :
+    asName ⟨.ident, toText m⟩ env.origin env.relativize env.relTo = nameBack env m := by
+  unfold asName nameBack
+  cases hor : env.origin with
+  | none =>
+    simp only [C01_fromText_toText m hw ho, TKind.noConfusion, ne_eq, not_true_eq_false, if_false]
+    cases chooseRelativity m (orOrigin env.relTo none) env.relativize <;> rfl
+  | some o =>
+    simp only [C01_fromText_toText_origin m o hw ho, ne_eq, not_true_eq_false, if_false]
+    by_cases hab : isAbs m = true
+    · simp only [hab, if_true]
+      cases chooseRelativity m (orOrigin env.relTo (some o)) env.relativize <;> rfl
+    · simp only [hab, Bool.false_eq_true, if_false]
+      cases validate (m ++ o) with
+      | error e => rfl
+      | ok q => cases chooseRelativity q (orOrigin env.relTo (some o)) env.relativize <;> rfl
+
+/-- a name field round-trips exactly when printing succeeds with a legal name `m` and `as_name` maps `m` back to `n` -/
+def NameFieldOk (st : Style) (env : PEnv) (n : Name) : Prop :=
+  ∃ m, chooseRelativity n st.origin st.relativize = .ok m ∧ WfName m ∧ OctetsOk m ∧ nameBack env m = some n
+
+theorem field_name (st : Style) (env : PEnv) (n : Name) (h : NameFieldOk st env n) :
+    ∃ text, FieldRT st env .name (.nm n) text ⟨.ident, text⟩ := by
+  obtain ⟨m, hp, hw, ho, hb⟩ := h
+  obtain ⟨hlex, hnh⟩ := toText_lexes m hw ho
+  refine ⟨toText m, by simp [printField, nameToStyled, hp], hlex, ?_, hnh⟩
+  simp [parseField, asName_toText env m hw ho, hb]
+
+theorem isSubdomain_rel_abs (n o : Name) (hn : isAbs n = false) (ho : isAbs o = true) : isSubdomain n o = false := by
+  unfold isSubdomain fullcompare
+  simp [hn, ho]
+
+theorem octetsOk_append (a b : Name) (ha : OctetsOk a) (hb : OctetsOk b) : OctetsOk (a ++ b) := by
+  intro l hl
+  simp at hl
+  rcases hl with h | h
+  · exact ha l h
+  · exact hb l h
+
+/-- the configurations in which a name comes back unchanged:
+* **plain**: nothing rewrites names (no style origin, no parse origin);
+* **absolute**: an absolute name, printed as it is, parsed with `relativize=False` (any origin);
+* **zone**: an absolute origin `O` used for parsing with `relativize=True` (and `relativize_to` absent or equal to it),
+  the style printing against no origin or against `O` (either `relativize` value), and the name normalised for `O` —
+  relative with `n ++ O` legal, or absolute and not below `O` (what `from_wire`/`from_text` with that origin produce). -/
+def NameCfgOk (st : Style) (env : PEnv) (n : Name) : Prop :=
+  (st.origin = none ∧ env.origin = none ∧ env.relTo = none) ∨
+  (isAbs n = true ∧ env.relativize = false ∧ (st.origin = none ∨ st.relativize = false)) ∨
+  (∃ O, env.origin = some O ∧ isAbs O = true ∧ OctetsOk O ∧ env.relativize = true ∧
+      orOrigin env.relTo (some O) = some O ∧ (st.origin = none ∨ st.origin = some O) ∧
+      ((isAbs n = false ∧ WfName (n ++ O)) ∨ (isAbs n = true ∧ isSubdomain n O = false)))
+
+theorem derelativize_abs (n : Name) (o : Name) (h : isAbs n = true) : derelativize n o = .ok n := by
+  simp [derelativize, h]
+
+theorem chooseRelativity_false_abs (n : Name) (oo : Option Name) (h : isAbs n = true) : chooseRelativity n oo false = .ok n := by
+  unfold chooseRelativity
+  cases oo with
+  | none => rfl
+  | some o =>
+    by_cases ho : o = []
+    · simp [ho]
+    · simp [ho, derelativize_abs n o h]
+
+theorem nameCfg_ok (st : Style) (env : PEnv) (n : Name) (hw : WfName n) (ho : OctetsOk n) (hcfg : NameCfgOk st env n) :
+    NameFieldOk st env n := by
+  rcases hcfg with ⟨hso, heo, hrt⟩ | ⟨habs, hrel, hst⟩ | ⟨O, heo, hOabs, hOoct, hrel, hro, hst, hn⟩
+  · exact ⟨n, by simp [chooseRelativity, hso], hw, ho, by simp [nameBack, heo, hrt, orOrigin, chooseRelativity]⟩
+  · have hprint : chooseRelativity n st.origin st.relativize = .ok n := by
+      rcases hst with h | h
+      · simp [chooseRelativity, h]
+      · rw [h]; exact chooseRelativity_false_abs n _ habs
+    refine ⟨n, hprint, hw, ho, ?_⟩
+    unfold nameBack
+    have hp : (match env.origin with
+        | none => (Except.ok n : Except NameErr Name)
+        | some o => if isAbs n then .ok n else validate (n ++ o)) = .ok n := by
+      cases env.origin <;> simp [habs]
+    simp only [hp, hrel, chooseRelativity_false_abs n _ habs]
+  · have hOne : O ≠ [] := ne_nil_of_isAbs' hOabs
+    -- relativizing against O gives n back in every case that can arise
+    have hrelO : ∀ q, (q = n ∨ (isAbs n = false ∧ q = n ++ O)) → relativize q O = .ok n := by
+      intro q hq
+      rcases hq with rfl | ⟨hnr, rfl⟩
+      · rcases hn with ⟨hnr, _⟩ | ⟨_, hns⟩
+        · simp [relativize, isSubdomain_rel_abs q O hnr hOabs]
+        · simp [relativize, hns]
+      · rcases hn with ⟨_, hwf⟩ | ⟨hna, _⟩
+        · have hd : derelativize n O = .ok (n ++ O) := by
+            simp [derelativize, hnr, concatenate, validate_of_wf _ hwf]
+          exact (derel_rel' n O (n ++ O) hw hnr hOabs hd).2
+        · rw [hna] at hnr; cases hnr
+    -- the printed name
+    have hprint : ∃ m, chooseRelativity n st.origin st.relativize = .ok m ∧ (m = n ∨ (isAbs n = false ∧ m = n ++ O)) := by
+      rcases hst with h | h
+      · exact ⟨n, by simp [chooseRelativity, h], Or.inl rfl⟩
+      · rw [h]
+        unfold chooseRelativity
+        simp only [hOne, if_false]
+        cases st.relativize with
+        | true => exact ⟨n, hrelO n (Or.inl rfl), Or.inl rfl⟩
+        | false =>
+          rcases hn with ⟨hnr, hwf⟩ | ⟨hna, _⟩
+          · exact ⟨n ++ O, by simp [derelativize, hnr, concatenate, validate_of_wf _ hwf], Or.inr ⟨hnr, rfl⟩⟩
+          · exact ⟨n, by simp [derelativize_abs n O hna], Or.inl rfl⟩
+    obtain ⟨m, hm, hmcase⟩ := hprint
+    have hmw : WfName m ∧ OctetsOk m := by
+      rcases hmcase with rfl | ⟨hnr, rfl⟩
+      · exact ⟨hw, ho⟩
+      · rcases hn with ⟨_, hwf⟩ | ⟨hna, _⟩
+        · exact ⟨hwf, octetsOk_append n O ho hOoct⟩
+        · rw [hna] at hnr; cases hnr
+    refine ⟨m, hm, hmw.1, hmw.2, ?_⟩
+    unfold nameBack
+    simp only [heo, hro, hrel]
+    -- `from_text` yields q = m (absolute) or m ++ O (relative m = n)
+    have hq : ∃ q, (if isAbs m then (Except.ok m : Except NameErr Name) else validate (m ++ O)) = .ok q ∧
+        (q = n ∨ (isAbs n = false ∧ q = n ++ O)) := by
+      rcases hmcase with rfl | ⟨hnr, rfl⟩
+      · rcases hn with ⟨hnr, hwf⟩ | ⟨hna, _⟩
+        · exact ⟨m ++ O, by simp [hnr, validate_of_wf _ hwf], Or.inr ⟨hnr, rfl⟩⟩
+        · exact ⟨m, by simp [hna], Or.inl rfl⟩
+      · have : isAbs (n ++ O) = true := by rw [isAbs_append' n O hOne]; exact hOabs
+        exact ⟨n ++ O, by simp [this], Or.inr ⟨hnr, rfl⟩⟩
+    obtain ⟨q, hq1, hq2⟩ := hq
+    simp only [hq1]
+    unfold chooseRelativity
+    simp only [hOne, if_false, if_true, hrelO q hq2]
 
 end Model
